@@ -327,7 +327,9 @@ class MinGenSet():
         # Solve for increasing numbers of elements in the generating set
         # A generating set with at most len(numbers) + 1 elements always exists (consecutive differences of the
         # sorted numbers, plus the remainder up to the total), so every k up to that value is tried
-        for k in range(self.lowerbound, max(self.lowerbound, len(self.initial_numbers) + 1) + 1):
+        # (each partition constraint adds at most len(constraint) further cut points to the common refinement)
+        max_k = len(self.initial_numbers) + 1 + sum(len(constraint) for constraint in (self.partition_constraints or []))
+        for k in range(self.lowerbound, max(self.lowerbound, max_k) + 1):
             self._create_solver(k=k)
             self.solver.optimize()
 
